@@ -236,17 +236,17 @@ def build(case, key="t"):
             if case.get("mutable"):
                 tensor.setMutable(True)
             op = tensor
-        pre = case.get("pre")
-        if pre:                      # tuple-coordinate operands come from a previous flatten
-            if tensor is not None:
-                tensor = tensor.flattenRanks(depth=pre.get("depth", 0), levels=pre.get("levels", 1),
-                                             coord_style=pre.get("style", "tuple"))
-                op = tensor
-            else:
-                op = f.flattenRanks(depth=pre.get("depth", 0), levels=pre.get("levels", 1), style=pre.get("style", "tuple"))
     finally:
         if brk:
             ft.Metrics.endCollect()
+    pre = case.get("pre")
+    if pre:                      # tuple-coordinate operands come from a previous flatten (outside any bracket)
+        if tensor is not None:
+            tensor = tensor.flattenRanks(depth=pre.get("depth", 0), levels=pre.get("levels", 1),
+                                         coord_style=pre.get("style", "tuple"))
+            op = tensor
+        else:
+            op = f.flattenRanks(depth=pre.get("depth", 0), levels=pre.get("levels", 1), style=pre.get("style", "tuple"))
     if kind == "root":
         op = tensor.getRoot()
     elif kind == "sub":
